@@ -144,10 +144,14 @@ def excel_rows(source_path, sheet=1):
                     location.advance_cell()
                 yield row
                 location.advance_line()
-    except xlrd.XLRDError as error:
-        raise errors.DataFormatError("cannot read Excel file: %s" % error, location)
+    except (errors.DataFormatError, EnvironmentError):
+        raise
     except UnicodeError as error:
         raise errors.DataFormatError("cannot decode Excel data: %s" % error, location)
+    except Exception as error:
+        # NOTE: Apart from XLRDError, broken files can cause a wide range of errors when xlrd attempts to
+        # parse them, for example BadZipFile, struct.error, IndexError or AssertionError.
+        raise errors.DataFormatError("cannot read Excel file: %s" % error, location)
 
 
 def _raise_delimited_data_format_error(delimited_path, reader, error):
